@@ -36,6 +36,9 @@ pub enum Case {
     /// `edits` successful breakpoint edits (`break add A`, `break remove A`, ...) within one pause -
     /// around and beyond 2^16 of them - then two breakpoints in a loop and `continue`s
     Churn { edits: u32 },
+    /// a labelled program whose trailing `.break` sits on address 0xFFFF - `below` (0, 1, 2), at
+    /// origin `orig`: listed and run into in both output modes
+    TopBreak { orig: u16, below: u8 },
 }
 
 fn program_for(c: &Case) -> (Built, Vec<u8>) {
@@ -78,6 +81,17 @@ fn program_for(c: &Case) -> (Built, Vec<u8>) {
                 }
             }
             (built, input.clone())
+        }
+        Case::TopBreak { orig, below } => {
+            let n = (0xFFFFu32 - *below as u32).saturating_sub(*orig as u32 + 2).max(1);
+            let lines = vec![
+                Line { label: None, body: Body::Orig(crate::refasm::Lit::Hex(*orig, 0)) },
+                Line::stmt(Some("start"), Stmt::new(Op::Add, &[0, 0], Operand::Lit(crate::refasm::Lit::Dec(1)))),
+                Line::stmt(Some("stop"), Stmt::simple(Op::Halt)),
+                Line::stmt(Some("pad"), Stmt::new(Op::Blkw, &[], Operand::Lit(crate::refasm::Lit::Hex(n as u16, 0)))),
+                Line { label: Some(("tail".into(), false)), body: Body::Break },
+            ];
+            (Built { program: Program { lines }, orig: *orig, stack: false, breaks: vec![] }, vec![])
         }
         Case::Churn { .. } => {
             // start: r0 = 0; loop: r0 += 1; r1 += 1; r2 = r0 - 3 ...; brn loop; halt
@@ -221,6 +235,11 @@ fn commands_for_raw(c: &Case, p: &Prog) -> (Vec<Cmd>, Vec<u8>) {
                 .collect(),
             cmds.iter().map(|r| r.alias).collect(),
         ),
+        Case::TopBreak { orig, .. } => {
+            let v = vec![Cmd::BreakList, Cmd::BreakAdd(crate::refdbg::Loc::Abs(orig.wrapping_add(1), 0)), Cmd::BreakList, Cmd::Continue, Cmd::BreakList, Cmd::Continue];
+            let n = v.len();
+            (v, vec![0; n])
+        }
         Case::Churn { edits } => {
             let abs = |x: u16| crate::refdbg::Loc::Abs(x, 0);
             let mut v = Vec::with_capacity(*edits as usize + 8);
@@ -422,7 +441,12 @@ pub fn judge_case(c: &Case) -> Obs {
     if out.execs != model.dbg.executed {
         obs.set_fail("C11:wrong-instruction-count", format!("lace executed {} instructions, the reference {}\n{shown}", out.execs, model.dbg.executed));
     }
-    mode_twin(&mut obs, "C11", &p, &script, &input, fuel, out, &shown);
+    if matches!(c, Case::TopBreak { .. }) {
+        obs.label("breakpoint-on-the-last-addresses");
+        mode_twin_always(&mut obs, "C11", &p, &script, &input, fuel, out, &shown);
+    } else {
+        mode_twin(&mut obs, "C11", &p, &script, &input, fuel, out, &shown);
+    }
     obs
 }
 
@@ -444,7 +468,7 @@ impl Prop for C11 {
         "C11"
     }
     fn rule(&self) -> &'static str {
-        "ProgGen programs with `.break` directives sprinkled by the generator plus 0-3 extra placements at any line position (before the first statement / .orig, between any two, after the last, doubled, on a labelled line), at default and non-default origins x histories of 1-13 commands over every resuming command, break add/remove (absolute, label+-offset, ^offset; extra weight on removing predefined ones), break list, the commands that move the PC while paused (goto, reset), aliasing scenarios (a second breakpoint 64*2^k words away from one in the code, added and removed again), and - a seventh of the sessions - a crowd of 15..18 / 31..34 / 63..66 / 100 / 257 breakpoints on consecutive words from the origin on (written as `.break` lines, or added at run time in a scattered order from the origin on or ending at a word of the program) before a shorter history that is followed by up to 40 further `continue`s among which one or two members of the crowd are removed (and one put back); plus the one-instruction loop `F call F` with a breakpoint on it; plus 65,535 / 65,536 / 65,537 (thorough: also 131,072) successful breakpoint edits within one pause followed by two breakpoints in a loop (whatever counts the edits may wrap). \
+        "ProgGen programs with `.break` directives sprinkled by the generator plus 0-3 extra placements at any line position (before the first statement / .orig, between any two, after the last, doubled, on a labelled line), at default and non-default origins x histories of 1-13 commands over every resuming command, break add/remove (absolute, label+-offset, ^offset; extra weight on removing predefined ones), break list, the commands that move the PC while paused (goto, reset), aliasing scenarios (a second breakpoint 64*2^k words away from one in the code, added and removed again), and - a seventh of the sessions - a crowd of 15..18 / 31..34 / 63..66 / 100 / 257 breakpoints on consecutive words from the origin on (written as `.break` lines, or added at run time in a scattered order from the origin on or ending at a word of the program) before a shorter history that is followed by up to 40 further `continue`s among which one or two members of the crowd are removed (and one put back); plus the one-instruction loop `F call F` with a breakpoint on it; plus 65,535 / 65,536 / 65,537 (thorough: also 131,072) successful breakpoint edits within one pause followed by two breakpoints in a loop (whatever counts the edits may wrap); plus a labelled program whose trailing `.break` sits on one of the last three addresses, at four origins, listed and run into in both output modes. \
          Oracle: RefDbg — pause before the marked instruction, resuming executes it once, it fires again on the next arrival (also when that is the very next instruction), removed breakpoints never pause: registers/PC/CC after every command, full final snapshot, executed-instruction count; `.break` occupies no memory (image equals the encoding without it) and marks the next statement (addresses recorded by the assembler); every `break list` equals the model's sorted duplicate-free list. \
          One case in six is run once more in the normal (non-minimal) output mode - tables, colours, errors rendered in full: it must end the same way, after the same number of instructions, with the same final machine. Non-trivial: a breakpoint is hit at least twice in the session, or a predefined breakpoint is removed and execution continues. Distinct = hash(source, script, input)."
     }
@@ -453,6 +477,17 @@ impl Prop for C11 {
     }
     fn run_worker(&self, ctx: &Ctx, rep: &mut Report) {
         // counters that count breakpoint edits may wrap: 2^16 - 1, 2^16, 2^16 + 1, 2^17 edits in one pause
+        // a trailing `.break` on the last addresses there are, at several origins, in both output modes
+        let mut k = 100u64;
+        for orig in [0u16, 1, 0x3000, 0xFDF0] {
+            for below in 0..3u8 {
+                k += 1;
+                if ctx.mine(k) {
+                    judge_one(ctx, rep, &Case::TopBreak { orig, below }, &mut |c| judge_case(c));
+                }
+            }
+        }
+        rep.exhaustive.push("a labelled program whose trailing `.break` sits on 0xFFFF / 0xFFFE / 0xFFFD, at origins 0, 1, 0x3000, 0xFDF0: listed and run into in both output modes".into());
         let churns: &[u32] = ctx.tier.pick(&[65_535u32, 65_536, 65_537][..], &[65_535u32, 65_536, 65_537, 131_072][..]);
         for (i, edits) in churns.iter().copied().enumerate() {
             if ctx.worker == (i * 3 + 1) % ctx.nworkers {
